@@ -29,13 +29,13 @@ RULE = ("cases = (i) best/archive operations on real populations (transition tou
 def run(ctx):
     q = ctx.quick
     memlib.unit(ctx, ["update_best", "init_run", "archive_update", "archive_into_population"])
-    runlib.run_templates(ctx, ["C07"], seeds=[ctx.seed, ctx.seed + 1, ctx.seed + 2] if q else list(range(ctx.seed, ctx.seed + 8)),
+    runlib.run_templates(ctx, ["C07"], seeds=[ctx.seed, ctx.seed + 1, ctx.seed + 2] if q else list(range(ctx.seed, ctx.seed + 6)),
                          iters=[4] if q else [1, 8, 30])
     # the firefly update evaluates intermediate positions itself (known finding KF_FireflyIntermediate_Best shows here)
     runlib.run_templates(ctx, ["C07"], seeds=list(range(ctx.seed, ctx.seed + (6 if q else 30))), iters=[8] if q else [1, 8, 40],
                          name="fa-runs", templates=["real_fa"], quick_grid=False)
     # chemical reactions drop the products of rejected reactions: long runs with many rejected reactions
-    runlib.run_templates(ctx, ["C07"], seeds=list(range(ctx.seed, ctx.seed + (6 if q else 40))), iters=[40] if q else [150],
+    runlib.run_templates(ctx, ["C07"], seeds=list(range(ctx.seed, ctx.seed + (6 if q else 16))), iters=[40] if q else [150],
                          name="cro-runs", templates=["real_cro"], quick_grid=False)
     return ctx.finish(RULE)
 
